@@ -35,6 +35,32 @@ class Stub:
         return r
 
 
+def pool_stub(e_kin=None, **kw):
+    """module-level (picklable) simulation function for process-pool scans"""
+    return StubResult(e_kin, {k: (dict(v) if isinstance(v, dict) else v) for k, v in kw.items()}, int(kw["element"].z))
+
+
+def pool_scan(ctx, rng, collect):
+    """parallel=True: same energies, same results, same order as the sequential scan"""
+    import ebisim
+    es = [float(x) for x in rng.uniform(100, 9000, 5)]
+    es[3] = es[0]
+    if sorted(es) == es: es = es[::-1]
+    kw = {"element": 7, "t_max": 2.0, "j": 10.0}
+    inp = {"energies": es, "kw": kw, "pool": True}
+    a = ebisim.energy_scan(pool_stub, dict(kw), list(es), parallel=False)
+    b = ebisim.energy_scan(pool_stub, dict(kw), list(es), parallel=True)
+    ctx.evaluations += 2; ctx.count("pool_scans")
+    if list(a._energies) != sorted(es) or list(b._energies) != sorted(es):
+        collect("sorted", f"pool scan energies {list(b._energies)} / sequential {list(a._energies)} are not {sorted(es)}", inp)
+    got = [float(r.e_kin) for r in b._results]
+    if got != sorted(es) or [float(r.e_kin) for r in a._results] != sorted(es):
+        collect("pointwise_pool", f"with parallel=True result i was simulated at {got}, the energy axis says {sorted(es)}", inp)
+    t = 0.7
+    if not np.array_equal(a.abundance_at_time(t)[1], b.abundance_at_time(t)[1]):
+        collect("pointwise_pool", "abundance_at_time table of the pool scan differs from the sequential scan", inp)
+
+
 def draw(rng, k):
     import ebisim
     n = int(rng.integers(1, 13))
@@ -275,6 +301,7 @@ def run(ctx):
 def search(ctx):
     rng = np.random.default_rng([ctx.seed, 1717])
     V = []
+    pool_scan(ctx, rng, _collector(V))
     for _ in range(4 if ctx.thorough else 1):
         real_scan(ctx, rng, _collector(V))
     if ctx.thorough:
@@ -287,7 +314,9 @@ def replay(ctx, data):
     inp = v.get("input") or {}
     if "energies" not in inp: return None
     V = []
-    if inp.get("real"):
+    if inp.get("pool"):
+        pool_scan(ctx, np.random.default_rng([ctx.seed, 1717]), _collector(V))
+    elif inp.get("real"):
         real_scan(ctx, np.random.default_rng([ctx.seed, 1717]), _collector(V), parallel=inp.get("parallel", False))
     else:
         kw = dict(inp["kw"]); z = int(kw["element"])
